@@ -555,6 +555,9 @@ class GetMessageBatch(KafkaBase):
         return [Clause('C09.returns_values_of_a_prefix_of_the_offset_range_in_order', ['C09'], when='return',
                        text='list(result) == rv(low, imin(nxt, high + 1)) and closed',
                        note='values of offsets low .. min(last polled, high), in order; nothing beyond high; the consumer is closed'),
+                Clause('C09.without_a_timeout_the_whole_range_is_read', ['C09'], when='return', text='nxt >= high + 1',
+                       note='the completion callback of the batch commits high + 1: the batch handed downstream must then contain '
+                            'every message up to high (only the optional timeout may cut the read short; none is given here)'),
                 ]
 
 
